@@ -123,7 +123,20 @@ def infer(model):
                 r.calls.setdefault(n.func.attr, []).append(n)
             elif isinstance(recv, ast.Name) and loop_over_self_attr(fn, recv.id):
                 r.calls.setdefault(n.func.attr, []).append(n)
-    r.status_consts = status_constants(model, mod)
+    r.status_consts = StatusConsts(status_constants(model, mod))
+    # locals that only ever hold one status (`status = statusBorrowed.setOptions(..)` before the store)
+    by = {}
+    for st in nodes:
+        if isinstance(st, ast.Assign) and len(st.targets) == 1 and isinstance(st.targets[0], ast.Name):
+            by.setdefault(st.targets[0].id, []).append(status_of(st.value, dict(r.status_consts)))
+    for st in nodes:
+        if isinstance(st, (ast.For, ast.AugAssign)):
+            for x in ast.walk(st.target):
+                if isinstance(x, ast.Name):
+                    by.setdefault(x.id, []).append(None)
+    for name, words in by.items():
+        if words and all(w is not None for w in words) and len(set(words)) == 1 and name not in r.status_consts:
+            r.status_consts.locals[name] = words[0]
     model.__dict__['_compile_roles'] = r
     return r
 
@@ -149,10 +162,20 @@ def status_constants(model, mod):
     return out
 
 
+class StatusConsts(dict):
+    """module-level status constants {NAME: word}; .locals = locals of compile() that only ever hold one status"""
+    def __init__(self, *a):
+        dict.__init__(self, *a)
+        self.locals = {}
+
+
 def status_of(expr, consts):
-    """Status word of an RHS: a status constant or `<const>.setOptions(...)`; else None."""
+    """Status word of an RHS: a status constant or `<const>.setOptions(...)` (or a local that only ever holds
+    one of these); else None."""
     if isinstance(expr, ast.Name) and expr.id in consts:
         return consts[expr.id]
+    if isinstance(expr, ast.Name) and expr.id in getattr(consts, 'locals', {}):
+        return consts.locals[expr.id]
     if isinstance(expr, ast.Call) and isinstance(expr.func, ast.Attribute) and expr.func.attr == 'setOptions' \
             and isinstance(expr.func.value, ast.Name) and expr.func.value.id in consts:
         return consts[expr.func.value.id]
